@@ -115,7 +115,13 @@ def r1_table(rep, ctx):
         if rep_val != val_t:
             why.append("reports another value than the one tested")
         # the limit must be guarded by 'limit is not None'
-        guarded = any(ast.unparse(n.test).replace(" ", "") in ("category_info.%s_valueisnotNone" % kind,) and b for n, b in ifs) if kind else False
+        guarded = False
+        if kind:
+            for n_, b_ in ifs:
+                t_ = n_.test
+                if isinstance(t_, ast.Compare) and len(t_.ops) == 1 and isinstance(t_.comparators[0], ast.Constant) and t_.comparators[0].value is None and _limit_kind(res.term(t_.left)) == kind:
+                    if (isinstance(t_.ops[0], ast.IsNot) and b_) or (isinstance(t_.ops[0], ast.Is) and not b_):
+                        guarded = True
         if kind and not guarded:
             why.append("the test is not guarded by '%s_value is not None'" % kind)
         rep.check(not why, "C12.R1", key, "%s limit, %s: `not value %s limit` reports %r and the same limit" % (kind, "exclusive" if excl else "inclusive", op, rep_op), "CheckValue: " + "; ".join(why), node=c, fn=fn)
@@ -291,7 +297,14 @@ def r4_memo(rep, ctx):
         if isinstance(st, ast.Assign) and isinstance(st.targets[0], ast.Attribute) and st.targets[0].attr == "_is_valid" and isinstance(st.value, ast.Constant):
             par = st._parent
             if st.value.value is True:
-                ok = isinstance(par, ast.Try) and st in par.orelse and any(isinstance(c, ast.Call) and isinstance(c.func, ast.Attribute) and c.func.attr == "_DoValidateValues" for b in par.body for c in ast.walk(b))
+                # every path to the store passes the normal completion of the validation call
+                calls_ = [c for c in own_nodes(vv.node) if isinstance(c, ast.Call) and isinstance(c.func, ast.Attribute) and c.func.attr == "_DoValidateValues"]
+                avoid_e = set()
+                for c in calls_:
+                    cn = cfg.node_of(c)
+                    avoid_e |= {(cn, b, l) for (b, l) in cfg.succ[cn] if l != "exc"}
+                # handlers that do not re-raise would let a failed validation fall through to the store
+                ok = bool(calls_) and cfg.node_of(st) not in cfg.reach(cfg.ENTRY, avoid_edges=avoid_e)
                 rep.check(ok, "C12.R4", "ValidateValues:valid-only-after-success", "the positive verdict is stored only when the validation ran without raising", "the positive verdict is stored without a successful validation", node=st, fn=vv)
             else:
                 ok = isinstance(par, ast.ExceptHandler)
